@@ -45,6 +45,7 @@ def floors(tier):
 def plan(seed, tier):
     cases = [{"id": f"pos-{p}", "position": p, "seed": seed} for p in apigen.C12_POSITIONS]
     cases.append({"id": "collisions", "position": "collisions", "seed": seed})
+    cases.append({"id": "twin-modules", "position": "twin-modules", "seed": seed})
     return cases
 
 
@@ -113,6 +114,8 @@ def run_case(case):
     position = case["position"]
     if position == "collisions":
         return run_collisions(case, scratch)
+    if position == "twin-modules":
+        return run_twin_modules(case, scratch)
     words = words_for(position)
     out = {"pairs": [], "harness": [], "generations": 0}
     solve(position, words, scratch, out)
@@ -297,6 +300,44 @@ def judge(position, item, o, model, api):
 
 # -- module-name collisions ------------------------------------------------------
 
+def run_twin_modules(case, scratch):
+    """Two proto-plus modules of one base name (root package + sub-package), each with a message Item and an enum Level of the
+    same numbers under other names; a third file uses both, some of them only through enum-typed fields."""
+    viol, sigs, counters = [], [], {"collision_configs": 0, "pairs_judged": 0}
+    for k in range(3):
+        rng = random.Random(case["seed"] * 31 + k)
+        api = apigen.twin_module_api(rng, "wtw%d" % k)
+        sub = os.path.join(scratch, "tw%d" % k)
+        os.makedirs(sub, exist_ok=True)
+        req, g, lib = pipeline.build_and_generate(api, sub)
+        counters["collision_configs"] += 1
+        counters["pairs_judged"] += 1
+        label = "twin-proto-plus-modules"
+        if not g.ok:
+            viol.append({"clause": "generation-fails", "detail": {"config": label, **g.failure()}, "mech": {"config": label}})
+            continue
+        has_book = any(m.name == "Book" for p in req.proto_file if p.name in req.file_to_generate for m in p.message_type)
+        script = {"root_pkg": apigen.lib_root(api.info, api.options), "position": "twin-modules", "pkg": api.info["pkg"], "book": has_book}
+        ev, rc, err = pipeline.run_runner("checks.c12", script, lib, timeout=200)
+        if ev is not None and "library_import_error" in ev:
+            viol.append({"clause": "library-import-fails", "detail": {"config": label, **ev["library_import_error"]}, "mech": {"config": label}})
+            continue
+        if ev is None or "runner_crash" in ev:
+            return {"verdict": "inconclusive", "why": f"twin runner rc={rc} {err[-400:]} {str(ev)[:800]}"}
+        want = {"item_root": api.info["pkg"] + ".Item", "item_sub": api.info["pkg"] + ".sub.Item"}
+        if has_book:
+            want.update({"level": ["HIGH", api.info["pkg"] + ".Level"], "admin_level": ["ROOT", api.info["pkg"] + ".sub.Level"],
+                         "flat_admin_level": "ROOT"})
+        bad = {k_: (ev["obs"].get(k_), v) for k_, v in want.items() if ev["obs"].get(k_) != v}
+        if bad:
+            viol.append({"clause": "module-collision", "detail": {"config": label, "observed_vs_expected": bad, "errors": ev["obs"].get("errors")},
+                         "mech": {"config": label}})
+        else:
+            sigs.append(f"collision|{label}|book={has_book}|{k}")
+    return {"verdict": "violated" if viol else "held", "violations": viol, "evaluations": counters["collision_configs"], "nontrivial_sigs": sigs,
+            "counters": counters, "sample": {"configs": counters["collision_configs"]}}
+
+
 def run_collisions(case, scratch):
     """Two dependency packages with one module base name, dependency vs target file, alias that itself collides."""
     from vlib.build import File, STD_DEPS
@@ -400,6 +441,8 @@ def in_runner(script):
     import importlib
     import inspect
     from vlib import rt
+    if script["position"] == "twin-modules":
+        return twin_runner(script)
     lib = rt.Lib(script["root_pkg"])
     srv = rt.GrpcServer()
     http = rt.HttpServer()
@@ -546,3 +589,53 @@ def _has_field(obj, name):
         return name in type(obj)._meta.fields if hasattr(type(obj), "_meta") else True
     except AttributeError:
         return False
+
+
+def twin_runner(script):
+    import importlib
+    from vlib import rt
+    lib = rt.Lib(script["root_pkg"])
+    root = lib.root
+    obs, errors = {}, []
+    pkg = script["pkg"]
+    srv = rt.GrpcServer()
+    gc = lib.grpc_client("Catalog", srv.target)
+    try:
+        # which classes the client's RPCs are wired to
+        Ack = lib.msg_cls(pkg + ".Ack")
+        ItemS = importlib.import_module(script["root_pkg"] + ".sub.types").Item
+        srv.script(f"/{pkg}.Catalog/Lookup", [{"payloads": [rt.b64(ItemS.serialize(ItemS(unit="kg", count=7)))]}])
+        obs["item_sub"] = rt.ser(gc.lookup(request=Ack(ok=True)))[0]
+        ItemR = importlib.import_module(script["root_pkg"] + ".types").Item
+        srv.script(f"/{pkg}.Catalog/Find", [{"payloads": [rt.b64(ItemR.serialize(ItemR(name="n", count=2)))]}])
+        obs["item_root"] = rt.ser(gc.find(request=Ack(ok=True)))[0]
+    except BaseException as e:  # noqa
+        errors.append(rt.exc_info(e))
+    if script["book"]:
+        try:
+            Book = lib.msg_cls(pkg + ".Book")
+            b = Book(level=2, admin_level=2)
+            obs["level"] = [b.level.name, type(b.level).__module__ and _enum_full_name(b.level)]
+            obs["admin_level"] = [b.admin_level.name, _enum_full_name(b.admin_level)]
+            mark = srv.mark()
+            import inspect as _i
+            enum_cls = _i.signature(type(gc).put_book).parameters["admin_level"].annotation
+            gc.put_book(title="t", admin_level=2)
+            sent = Book.deserialize(rt.unb64(srv.since(mark)[0]["requests"][0]))
+            obs["flat_admin_level"] = sent.admin_level.name
+        except BaseException as e:  # noqa
+            errors.append(rt.exc_info(e))
+    obs["errors"] = errors
+    srv.stop()
+    return {"obs": obs}
+
+
+def _enum_full_name(v):
+    """proto full name of the enum a proto-plus enum member belongs to (looked up through its pb descriptor)."""
+    try:
+        return type(v)._meta.full_name
+    except Exception:
+        try:
+            return type(v).pb(type(v)).DESCRIPTOR.full_name      # pragma: no cover
+        except Exception:
+            return type(v).__qualname__
